@@ -100,6 +100,8 @@ def build(case):
     dim = case["dim"]
     a, b = np.array(case["a"], dtype=float), np.array(case["b"], dtype=float)
     f = make_function(case)
+    if case.get("nocache"):
+        f.deactivate_caching()      # public option of every integrand: values are not kept (the point bookkeeping must survive a save / restore)
     ref = np.array([float(f.getAnalyticSolutionIntegral(a, b))])     # the true integral, so that errors are real errors
     if case["kind"] == "dw":
         from sparseSpACE.spatiallyAdaptiveSingleDimension2 import SpatiallyAdaptiveSingleDimensions2
@@ -315,7 +317,7 @@ def run(case):
                 nt += 1
             out.cls("mode=" + mode, "leg=" + leg, "final-tol=%s" % (("none(%r)" % case.get("notol", -1)) if tol_final in (-1, 0) else "observed-error"))
     out.nontrivial = nt >= 1
-    out.cls("integrand-scale=%g" % case.get("fscale", 1.0))
+    out.cls("integrand-scale=%g" % case.get("fscale", 1.0), "integrand-cache=%s" % ("off" if case.get("nocache") else "on"))
     if kind == "es":
         out.cls("automatic_extend_split=%s" % bool(case.get("auto", False)))
     if kind == "dw":
@@ -341,7 +343,8 @@ def _strategy(kind):
                      noop=draw(st.lists(st.booleans(), min_size=1, max_size=3)),
                      fscale=draw(st.sampled_from([1.0, 1.0, 1.0, 1e-12, 1e-10, 1e-6, 1e3, 1e8, -1e-11])),
                      notol=draw(st.sampled_from([-1, 0, 0.0])),
-                     read=draw(st.lists(st.booleans(), min_size=1, max_size=4)))
+                     read=draw(st.lists(st.booleans(), min_size=1, max_size=4)),
+                     nocache=draw(st.sampled_from([False, False, True])))
             if kind == "dw":
                 c.update(lmin=1, lmax=2, version=draw(st.sampled_from([6, 6, 2, 3, 7, 8])), rebalancing=draw(st.booleans()),
                          boundary=draw(st.booleans()), maxev=draw(st.integers(30, 250 if dim == 2 else 200)),
